@@ -28,6 +28,8 @@ Not decided: that the parsed list equals the source list, hoisted inner names fo
     rebuild(m, ctx, "C02.rebuild");
     // anonymous nested types are emitted wherever they are referred to (shared with C01.defined)
     crate::rules::c01::defined(m, ctx, "C02.nested");
+    // "whose Rust type corresponds to the component's ASN.1 type": a reference written Mod.Type keeps its module at every rendering site (= C12.qualified)
+    crate::rules::c12::qualified(m, ctx, "C02.qualified");
 }
 
 /// C02.defname: "DEFAULT components carry a default function" — the function named by the `default = "..."` annotation,
